@@ -403,22 +403,11 @@ fn deposit_track(det: &Detector, vertex: [f64; 3], tr: &SimTrack, amplitude: f64
         if bin >= SIGNAL_SAMPLES {
             continue;
         }
-        let mutn: i32 = std::env::var("SIM_MUT").ok().and_then(|v| v.parse().ok()).unwrap_or(0);
-        let lorentz = if mutn == 1 { -lorentz } else if mutn == 5 { 0.0 } else { lorentz };
         let phi = (y.atan2(x) + lorentz).rem_euclid(TAU);
-        let mut slot = ((phi / WIRE_PITCH).floor() as usize).min(TPC_ANODE_WIRES - 1);
-        let slot0 = slot;
-        if mutn == 3 { slot = (slot + 8) % 256; }
-        if mutn == 7 { slot = (slot + 1) % 256; }
-        let z_true = z;
-        let z = if mutn == 4 { z + PAD_PITCH_Z } else if mutn == 6 { -z } else { z };
-        let _ = z_true;
-        let bin_w = bin;
-        let bin = if mutn == 2 { bin + 2 } else if mutn == 8 { bin + 1 } else { bin };
-        if bin >= SIGNAL_SAMPLES { continue; }
-        out.wires.entry(slot).or_insert_with(|| vec![0.0; SIGNAL_SAMPLES])[bin_w] += charge;
+        let slot = ((phi / WIRE_PITCH).floor() as usize).min(TPC_ANODE_WIRES - 1);
+        out.wires.entry(slot).or_insert_with(|| vec![0.0; SIGNAL_SAMPLES])[bin] += charge;
         // pads of the facing column
-        let column = column_of_slot(slot0);
+        let column = column_of_slot(slot);
         let centre = ((z + half_length) / PAD_PITCH_Z).floor() as i64;
         let lo = (centre - reach).max(0);
         let hi = (centre + reach).min(TPC_PAD_ROWS as i64 - 1);
@@ -503,14 +492,26 @@ fn adc_packet(rng: &mut Rng, src: &WireSrc, wave: Vec<i16>, trigger: u16, timest
     c02::encode(&f)
 }
 
-/// One event of the forward model. Everything random comes from `rng`; the same `rng` state and
-/// configuration give the same event, byte for byte.
-pub fn simulate_event(rng: &mut Rng, cfg: &SimConfig) -> SimEvent {
-    let det = detector();
+/// What an event is made of (the "Monte Carlo truth"). `simulate_truth` turns it into banks, so
+/// that a caller can also simulate a transformed copy (rotated, mirrored, …) of an event.
+#[derive(Clone, Debug, PartialEq)]
+pub struct SimTruth {
+    /// metres
+    pub vertex: [f64; 3],
+    pub tracks: Vec<SimTrack>,
+    /// wire charge (units of the wire response) deposited per `REF_PATH` of track
+    pub amplitude: f64,
+    /// Gaussian width (metres) of the pad charge along z
+    pub pad_sigma_z: f64,
+    pub trg_timestamp: u32,
+}
+
+/// Draw the truth of one event from the distribution C12 describes.
+pub fn draw_truth(rng: &mut Rng, cfg: &SimConfig) -> SimTruth {
     let vertex = [uniform(rng, -0.01, 0.01), uniform(rng, -0.01, 0.01), uniform(rng, -0.8, 0.8)];
     let n_tracks = rng.range(cfg.n_tracks.0 as u64, cfg.n_tracks.1.max(cfg.n_tracks.0) as u64) as usize;
     let amplitude = uniform(rng, cfg.amplitude.0, cfg.amplitude.1);
-    let sigma_z = uniform(rng, cfg.pad_sigma_z.0, cfg.pad_sigma_z.1).max(1e-4);
+    let pad_sigma_z = uniform(rng, cfg.pad_sigma_z.0, cfg.pad_sigma_z.1);
     let tracks: Vec<SimTrack> = (0..n_tracks)
         .map(|_| SimTrack {
             phi0: uniform(rng, 0.0, TAU),
@@ -520,6 +521,23 @@ pub fn simulate_event(rng: &mut Rng, cfg: &SimConfig) -> SimEvent {
         })
         .collect();
     let trg_timestamp = rng.next() as u32;
+    SimTruth { vertex, tracks, amplitude, pad_sigma_z, trg_timestamp }
+}
+
+/// One event of the forward model. Everything random comes from `rng`; the same `rng` state and
+/// configuration give the same event, byte for byte.
+pub fn simulate_event(rng: &mut Rng, cfg: &SimConfig) -> SimEvent {
+    let truth = draw_truth(rng, cfg);
+    simulate_truth(rng, &truth, cfg.noise_adc)
+}
+
+/// Signals and banks of a given truth. `rng` only supplies the packet header fields the
+/// reconstruction ignores (sequence numbers, counters, …) and the electronic noise
+/// (`noise_adc` r.m.s. ADC counts, 0 = none).
+pub fn simulate_truth(rng: &mut Rng, truth: &SimTruth, noise_adc: f64) -> SimEvent {
+    let det = detector();
+    let SimTruth { vertex, tracks, amplitude, pad_sigma_z, trg_timestamp } = truth.clone();
+    let sigma_z = pad_sigma_z.max(1e-4);
 
     let mut charges = Charges::default();
     for tr in &tracks {
@@ -552,7 +570,7 @@ pub fn simulate_event(rng: &mut Rng, cfg: &SimConfig) -> SimEvent {
     for (slot, signal) in &total {
         let src = &det.wire_src[det.wire_of_slot[*slot]];
         let (wave, c) =
-            digitise(rng, signal, src.baseline, src.gain, det.wire_delay, cfg.noise_adc, ADC_MIN, ADC_MAX);
+            digitise(rng, signal, src.baseline, src.gain, det.wire_delay, noise_adc, ADC_MIN, ADC_MAX);
         clamped_samples += c;
         banks.push((src.bank.clone(), adc_packet(rng, src, wave, adc_trigger, adc_timestamp)));
     }
@@ -562,8 +580,8 @@ pub fn simulate_event(rng: &mut Rng, cfg: &SimConfig) -> SimEvent {
     for (&(column, row), input) in &charges.pads {
         let src = det.pad_src[column * TPC_PAD_ROWS + row].unwrap();
         let signal = convolve(input, &det.pad_resp);
-        let (wave, c) = digitise(rng, &signal, src.baseline, src.gain, det.pad_delay, cfg.noise_adc, PWB_MIN, PWB_MAX);
-        if cfg.noise_adc == 0.0 && wave.iter().all(|&v| v == src.baseline) {
+        let (wave, c) = digitise(rng, &signal, src.baseline, src.gain, det.pad_delay, noise_adc, PWB_MIN, PWB_MAX);
+        if noise_adc == 0.0 && wave.iter().all(|&v| v == src.baseline) {
             continue; // nothing above the least significant bit: the channel did not fire
         }
         clamped_samples += c;
@@ -709,7 +727,8 @@ pub fn track_at_radius(vertex: [f64; 3], tr: &SimTrack, r: f64) -> Option<(f64, 
         let a = theta0 + q * s / tr.radius;
         (cx + tr.radius * a.cos()).hypot(cy + tr.radius * a.sin())
     };
-    // the distance from the axis grows monotonically along the first 0.3 m of arc
+    // beyond the first centimetres (vertex ≤ 1.5 cm from the axis) the distance from the axis
+    // grows monotonically along the first 0.3 m of arc: one crossing for r in the drift volume
     let (mut lo, mut hi) = (0.0, 0.3);
     if radius_at(lo) > r || radius_at(hi) < r {
         return None;
@@ -732,9 +751,6 @@ pub fn track_at_radius(vertex: [f64; 3], tr: &SimTrack, r: f64) -> Option<(f64, 
 /// amplitude, pad amplitude) with respect to the closest true track at the same radius (metres). Diagnostic of the forward
 /// model against the library's signal chain (deconvolution, matching, drift lookup).
 pub fn point_residuals(ev: &SimEvent) -> Vec<[f64; 5]> {
-    use alpha_g_physics::SpacePoint;
-    use uom::si::angle::radian;
-    use uom::si::length::meter;
     match MainEvent::try_from_banks(SIM_RUN, ev.bank_refs()) {
         Ok(event) => point_residuals_of(ev, &event),
         Err(_) => Vec::new(),
@@ -776,37 +792,12 @@ fn quantile(sorted: &[f64], q: f64) -> f64 {
 
 /// `n` events of the default configuration through `try_from_banks` + `vertex()`.
 pub fn stats(seed: u64, n: usize, out_path: &str) {
-    if std::env::var("SIM_POINTS").is_ok() {
-        let h = std::thread::Builder::new().stack_size(64 << 20).spawn(move || {
-            for i in 0..n.min(40) {
-                let ev = simulate_event(&mut event_rng(seed, i), &SimConfig::default());
-                let res = point_residuals(&ev);
-                let mut t: Vec<f64> = res.iter().map(|r| r[1].abs()).collect();
-                let mut z: Vec<f64> = res.iter().map(|r| r[2].abs()).collect();
-                t.sort_by(|a, b| a.partial_cmp(b).unwrap());
-                z.sort_by(|a, b| a.partial_cmp(b).unwrap());
-                let far = res.iter().filter(|r| r[1].hypot(r[2]) > 0.01).count();
-                let mean_t = res.iter().map(|r| r[1]).sum::<f64>() / res.len().max(1) as f64;
-                let mean_z = res.iter().map(|r| r[2]).sum::<f64>() / res.len().max(1) as f64;
-                if i == 0 {
-                    for r in res.iter().filter(|r| r[1].hypot(r[2]) > 0.005) {
-                        println!("   outlier r {:.4} rdphi {:.4} dz {:.4} wire {:.4} pad {:.4}", r[0], r[1], r[2], r[3], r[4]);
-                    }
-                    let mut sd: Vec<f64> = res.iter().map(|r| r[1]).collect();
-                    sd.sort_by(|a, b| a.partial_cmp(b).unwrap());
-                    println!("   median signed rdphi {:.5}", quantile(&sd, 0.5));
-                    for r in res.iter().take(60) {
-                        println!("   point r {:.4} rdphi {:.4} dz {:.4} wire {:.4} pad {:.4}", r[0], r[1], r[2], r[3], r[4]);
-                    }
-                }
-                println!("ev {i} tracks {} points {} med|rdphi| {:.5} p90 {:.5} med|dz| {:.5} p90 {:.5} mean rdphi {:.5} mean dz {:.5} >1cm {far} sigma {:.4} amp {:.1}",
-                    ev.tracks.len(), res.len(), quantile(&t, 0.5), quantile(&t, 0.9), quantile(&z, 0.5), quantile(&z, 0.9), mean_t, mean_z, ev.pad_sigma_z, ev.amplitude);
-            }
-        }).unwrap();
-        h.join().unwrap();
-        return;
+    let mut cfg = SimConfig::default();
+    // exploration only: `SIM_NOISE_ADC=<r.m.s. counts>` (the report records the configuration)
+    if let Some(noise) = std::env::var("SIM_NOISE_ADC").ok().and_then(|v| v.parse().ok()) {
+        cfg.noise_adc = noise;
     }
-    let report = stats_with(seed, n, &SimConfig::default());
+    let report = stats_with(seed, n, &cfg);
     let text = serde_json::to_string_pretty(&report).unwrap();
     if !out_path.is_empty() {
         std::fs::write(out_path, &text).expect("write statistics");
@@ -873,6 +864,12 @@ pub fn stats_with(seed: u64, n: usize, cfg: &SimConfig) -> serde_json::Value {
         .collect();
     serde_json::json!({
         "seed": seed,
+        "config": {
+            "n_tracks": [cfg.n_tracks.0, cfg.n_tracks.1],
+            "amplitude": [cfg.amplitude.0, cfg.amplitude.1],
+            "pad_sigma_z_m": [cfg.pad_sigma_z.0, cfg.pad_sigma_z.1],
+            "noise_adc": cfg.noise_adc,
+        },
         "events": outcomes.len(),
         "accepted_by_try_from_banks": accepted,
         "deterministic": outcomes.iter().filter(|o| o.deterministic).count(),
@@ -902,4 +899,70 @@ pub fn stats_with(seed: u64, n: usize, cfg: &SimConfig) -> serde_json::Value {
         "not_reconstructed": failures,
         "replay": "sim::simulate_event(&mut sim::event_rng(seed, event), &SimConfig::default())",
     })
+}
+
+#[cfg(test)]
+mod tests {
+    use super::*;
+
+    fn on_big_stack(f: impl FnOnce() + Send + 'static) {
+        std::thread::Builder::new().stack_size(64 << 20).spawn(f).unwrap().join().unwrap();
+    }
+
+    #[test]
+    fn same_seed_same_banks_and_every_event_is_accepted() {
+        on_big_stack(|| {
+            let cfg = SimConfig::default();
+            for i in 0..6 {
+                let a = simulate_event(&mut event_rng(11, i), &cfg);
+                let b = simulate_event(&mut event_rng(11, i), &cfg);
+                assert_eq!(a.banks, b.banks);
+                assert!(a.banks.iter().all(|(name, _)| name.len() == 4));
+                assert_eq!(a.clamped_samples, 0);
+                let event = MainEvent::try_from_banks(SIM_RUN, a.bank_refs()).expect("accepted");
+                assert_eq!(event.timestamp(), a.trg_timestamp);
+                // every C-bank became a wire signal of exactly the simulated length, every pad
+                // signal too
+                let (wires, pads) = event.verif_signals();
+                let n_c = a.banks.iter().filter(|(n, _)| n.starts_with('C')).count();
+                assert_eq!(wires.iter().flatten().count(), n_c);
+                assert!(wires.iter().flatten().all(|s| s.len() == SIGNAL_SAMPLES));
+                assert!(pads.iter().flatten().flatten().all(|s| s.len() == SIGNAL_SAMPLES));
+                assert!(pads.iter().flatten().flatten().count() > 10);
+            }
+        });
+    }
+
+    #[test]
+    fn noise_and_odd_configurations_are_accepted() {
+        on_big_stack(|| {
+            let configs = [
+                SimConfig { noise_adc: 5.0, ..SimConfig::default() },
+                SimConfig { n_tracks: (0, 0), ..SimConfig::default() },
+                SimConfig { n_tracks: (8, 8), amplitude: (100.0, 100.0), ..SimConfig::default() },
+                SimConfig { pad_sigma_z: (0.0, 0.0), amplitude: (0.0, 0.0), ..SimConfig::default() },
+            ];
+            for (k, cfg) in configs.iter().enumerate() {
+                let ev = simulate_event(&mut event_rng(5, k), cfg);
+                MainEvent::try_from_banks(SIM_RUN, ev.bank_refs()).expect("accepted");
+            }
+        });
+    }
+
+    #[test]
+    fn true_track_crosses_every_drift_radius_once() {
+        let truth = draw_truth(&mut event_rng(3, 0), &SimConfig::default());
+        for tr in &truth.tracks {
+            let mut last_z = None;
+            for k in 0..=20 {
+                let r = INNER_CATHODE_RADIUS + (ANODE_WIRES_RADIUS - INNER_CATHODE_RADIUS) * k as f64 / 20.0;
+                let (_, z) = track_at_radius(truth.vertex, tr, r).expect("crossing");
+                if let Some(lz) = last_z {
+                    // z moves monotonically with the sign of dz/ds
+                    assert!((z - lz) * tr.dz_ds >= 0.0);
+                }
+                last_z = Some(z);
+            }
+        }
+    }
 }
